@@ -2,7 +2,7 @@
 clauses only; the one-to-one matching of duplicate keys is not decided, see DESIGN.md)."""
 import re
 
-from .. import shape, static
+from .. import iset, shape, static
 from ..absint import Agg, Conc, Ref, Sym, Top, Undecided
 from ..summ import AVec
 
@@ -41,11 +41,15 @@ def dispatch_rule(ctx, res):
     for i, a in enumerate(names):
         for j, b in enumerate(names):
             sh = shape.Shape(P)
-            sh.cut(r"^<std::vec::Vec<json_syntax::Value> as json_syntax::UnorderedPartialEq>::unordered_eq$", "vec_ueq", ret=lambda it, st, c, a_: Top(None, "R"))
-            sh.cut(r"^<json_syntax::Object as json_syntax::UnorderedPartialEq>::unordered_eq$", "obj_ueq", ret=lambda it, st, c, a_: Top(None, "R"))
-            sh.cut(r"as std::cmp::PartialEq.*>::eq$|^(std|alloc)::vec::partial_eq::<impl .*>::eq$|^(std|core)::slice::cmp::<impl .*PartialEq.*>::eq$", "eq", ret=lambda it, st, c, a_: Top(None, "R"))
-            pa = [Top(f["ty"], "a") for f in vt["variants"][i]["fields"]]
-            pb = [Top(f["ty"], "b") for f in vt["variants"][j]["fields"]]
+            # the three delegated comparisons answer with a fresh symbolic boolean, so that code which branches on the
+            # answer (`if a == b { true } else { false }`, `matches!`) forks instead of being undecided
+            def answer(it_, st_, c_, a_):
+                return st_.fresh_sym(iset.BOOL, kind="answer")
+            sh.cut(r"^<std::vec::Vec<json_syntax::Value> as json_syntax::UnorderedPartialEq>::unordered_eq$", "vec_ueq", ret=answer)
+            sh.cut(r"^<json_syntax::Object as json_syntax::UnorderedPartialEq>::unordered_eq$", "obj_ueq", ret=answer)
+            sh.cut(r"as std::cmp::PartialEq.*>::eq$|^(std|alloc)::vec::partial_eq::<impl .*>::eq$|^(std|core)::slice::cmp::<impl .*PartialEq.*>::eq$", "eq", ret=answer)
+            pa = [sh.sym(iset.BOOL, kind="a") if P.types[f["ty"]]["k"] == "bool" else Top(f["ty"], "a") for f in vt["variants"][i]["fields"]]
+            pb = [sh.sym(iset.BOOL, kind="b") if P.types[f["ty"]]["k"] == "bool" else Top(f["ty"], "b") for f in vt["variants"][j]["fields"]]
             ra, rb = sh.cell(Agg(vt["id"], i, pa)), sh.cell(Agg(vt["id"], j, pb))
             key = "%s/%s-%s" % (rule, a, b)
             try:
@@ -54,31 +58,73 @@ def dispatch_rule(ctx, res):
                 res.violation(rule, key + "/undecided", "deviates from the reviewed dispatch; while interpreting: %s" % e)
                 continue
             res.count("variant_pairs")
-            if len(outs) != 1 or outs[0].outcome[0] != "return":
-                res.violation(rule, key + "/paths", "unordered_eq(%s, %s): %d paths" % (a, b, len(outs)))
+            if not outs or any(o.outcome[0] != "return" for o in outs):
+                res.violation(rule, key + "/paths", "unordered_eq(%s, %s): %s" % (a, b, [o.outcome[0] for o in outs]))
                 continue
-            o = outs[0]
-            ev = shape.events(o)
-            rv = o.outcome[1]
+
+            def verdict(o):
+                """('const', 0|1) | ('answer-of', tag, args) | ('bool-eq',) | ('other', repr): what this path returns, where a
+                returned constant that the path condition ties to the delegated answer counts as that answer."""
+                rv = o.outcome[1]
+                ev = shape.events(o)
+                if len(ev) > 1:
+                    return ("other", "several comparisons: %r" % [e[0] for e in ev])
+                if ev:
+                    e = ev[0]
+                    # the symbol the cut returned is the one fresh 'answer' symbol of this path
+                    ans = [sid for sid, info in o.syminfo.items() if info.get("kind") == "answer"]
+                    if len(ans) != 1:
+                        return ("other", "answer symbol lost")
+                    sid = ans[0]
+                    dom = o.cons.get(sid)
+                    if isinstance(rv, Sym) and rv.id == sid:
+                        return ("answer-of", e[0], e[2])
+                    if isinstance(rv, Conc) and dom is not None and iset.size(dom) == 1 and iset.lo(dom) == rv.v:
+                        return ("answer-of", e[0], e[2])
+                    return ("other", "returns %r after %s" % (rv, e[0]))
+                if isinstance(rv, Conc):
+                    return ("const", rv.v)
+                return ("expr", rv)
+
+            vs = [verdict(o) for o in outs]
             if i != j:
-                ok = rv == Conc(0) and not ev
+                ok = all(v == ("const", 0) for v in vs)
                 why = "values of different kinds must be unequal"
             elif a == "Null":
-                ok = rv == Conc(1) and not ev
+                ok = all(v == ("const", 1) for v in vs)
                 why = "null ~ null"
-            elif a in ("Boolean", "Number", "String"):
-                ok = len(ev) == 1 and ev[0][0] == "eq" and isinstance(rv, Top) and rv.tag == "R" and ev[0][2] == (pa[0], pb[0])
+            elif a == "Boolean":
+                # primitive comparison of the two payloads: decided by evaluating the paths over the four assignments
+                ok = True
+                for va in (0, 1):
+                    for vb in (0, 1):
+                        hits = []
+                        for o in outs:
+                            da, db = o.cons.get(pa[0].id, iset.BOOL), o.cons.get(pb[0].id, iset.BOOL)
+                            if not (iset.contains(da, va) and iset.contains(db, vb)):
+                                continue
+                            try:
+                                if not all(sh.it.eval_expr(p_, {pa[0].id: va, pb[0].id: vb}) == t_ for p_, t_ in o.preds):
+                                    continue
+                                rv = o.outcome[1]
+                                r_ = rv.v if isinstance(rv, Conc) else sh.it.eval_expr(rv, {pa[0].id: va, pb[0].id: vb})
+                            except Exception:  # noqa
+                                ok = False
+                                continue
+                            hits.append(r_)
+                        ok = ok and hits == [int(va == vb)]
+                why = "booleans are compared with =="
+            elif a in ("Number", "String"):
+                ok = all(v[0] == "answer-of" and v[1] == "eq" and tuple(v[2]) == (pa[0], pb[0]) for v in vs) and len(set(v[0] for v in vs)) == 1
                 why = "scalars are compared with =="
-                if a == "Boolean":  # bool == bool is a primitive comparison
-                    ok = not ev and not isinstance(rv, Conc)
             elif a == "Array":
-                ok = len(ev) == 1 and ev[0][0] == "vec_ueq" and isinstance(rv, Top) and rv.tag == "R" and ev[0][2] == (pa[0], pb[0])
+                ok = all(v[0] == "answer-of" and v[1] == "vec_ueq" and tuple(v[2]) == (pa[0], pb[0]) for v in vs)
                 why = "arrays are compared with Vec::unordered_eq (element-wise unordered comparison)"
             else:
-                ok = len(ev) == 1 and ev[0][0] == "obj_ueq" and isinstance(rv, Top) and rv.tag == "R" and ev[0][2] == (pa[0], pb[0])
+                ok = all(v[0] == "answer-of" and v[1] == "obj_ueq" and tuple(v[2]) == (pa[0], pb[0]) for v in vs)
                 why = "objects are compared with Object::unordered_eq"
-            res.ob(ok, rule, key, "unordered_eq(%s, %s) does %r and returns %r (%s)" % (a, b, [(e[0], e[3][-60:]) for e in ev], rv, why),
-                   sample={"pair": "%s/%s" % (a, b), "does": [e[0] for e in ev] or repr(rv)} if i == j else None)
+            res.ob(ok, rule, key, "unordered_eq(%s, %s) behaves as %r (%s)" % (a, b, [v[:2] for v in vs], why),
+                   sample={"pair": "%s/%s" % (a, b), "does": [str(v[:2]) for v in vs]} if i == j else None)
     res.floor(rule, "variant_pairs", 36)
     # wrapper
     try:
@@ -110,6 +156,9 @@ def closures_of(P, inst):
 
 
 def vec_rule(ctx, res):
+    """Arrays stay ordered: Vec::unordered_eq, interpreted on every pair of small vectors of value tokens (lengths 0..2 on
+    either side), is `same length and position-wise unordered_eq`."""
+    import itertools
     P = ctx.P
     rule = "C15.vec"
     try:
@@ -117,16 +166,44 @@ def vec_rule(ctx, res):
     except Undecided as e:
         res.violation(rule, rule + "/missing", str(e))
         return
-    lens = calls_in(P, inst, r"^std::vec::Vec::<json_syntax::Value>::len$")
-    origins = sorted(static.origin(inst, t["args"][0])[1] for _, _, t in lens if static.origin(inst, t["args"][0])[0] == "param")
-    res.ob(origins == [1, 2], rule, rule + "/len", "Vec::unordered_eq does not compare the lengths of both operands (len called on parameters %r)" % (origins,), sample={"len_of": "self and other"})
-    cl = closures_of(P, inst)
-    ueq = [c for c in cl if calls_in(P, c, r"as json_syntax::UnorderedPartialEq>::unordered_eq$")]
-    eq = [c for c in cl if calls_in(P, c, r"as std::cmp::PartialEq.*>::eq$")]
-    res.ob(len(ueq) >= 1 and not eq, rule, rule + "/elements", "Vec::unordered_eq does not compare elements with unordered_eq (closures calling unordered_eq: %d, calling ==: %d)" % (len(ueq), len(eq)),
-           sample={"elements_compared_with": "unordered_eq"})
-    zips = calls_in(P, inst, r"std::iter::Iterator>::zip")
-    res.ob(len(zips) == 1, rule, rule + "/zip", "Vec::unordered_eq does not pair elements position-wise (zip)")
+    vecs = [()] + [(x,) for x in (1, 2)] + list(itertools.product((1, 2), repeat=2)) + [(1, 2, 1)]
+    bad = None
+    n = 0
+    for xs in vecs:
+        for ys in vecs:
+            sh = shape.Shape(P)
+
+            def ueq(it, st, c, a_):
+                x, y = (shape.deref(it, st, v, 4) for v in a_[:2])
+                if not all(isinstance(v, Top) and isinstance(v.tag, tuple) and v.tag[0] == "val" for v in (x, y)):
+                    raise Undecided("element comparison of %r and %r" % (x, y))
+                return Conc(int(x.tag[1] == y.tag[1]))
+
+            sh.cut(r"^<json_syntax::Value as json_syntax::UnorderedPartialEq>::unordered_eq$", "ueq", ret=ueq)
+
+            def ordered(it, st, c, a_):
+                raise Undecided("elements are compared with == (PartialEq), which is sensitive to the order of nested object entries")
+
+            sh.cut(r"^<json_syntax::Value as std::cmp::PartialEq>::eq$", "eq", ret=ordered)
+            va = sh.st.new_obj(AVec(tuple(Top(None, ("val", x)) for x in xs), "array"))
+            vb = sh.st.new_obj(AVec(tuple(Top(None, ("val", y)) for y in ys), "array"))
+            try:
+                outs = sh.run(inst, [sh.cell(va), sh.cell(vb)])
+            except Undecided as e:
+                res.violation(rule, rule + "/undecided", "undecided while interpreting Vec::unordered_eq on %r ~ %r: %s" % (xs, ys, e))
+                return
+            n += 1
+            if len(outs) != 1 or outs[0].outcome[0] != "return" or not isinstance(outs[0].outcome[1], Conc):
+                res.violation(rule, rule + "/paths", "Vec::unordered_eq on %r ~ %r: %s" % (xs, ys, [o.outcome for o in outs][:3]))
+                return
+            got = outs[0].outcome[1].v
+            want = int(xs == ys)
+            if got != want and bad is None:
+                bad = (xs, ys, got)
+    res.count("C15.vec configurations", n)
+    res.floor(rule, "C15.vec configurations", 60)
+    res.ob(bad is None, rule, rule + "/ordered", "Vec::unordered_eq must hold exactly for vectors of the same length whose elements are unordered-equal position by position; %r ~ %r returns %s" % (
+        bad[0] if bad else None, bad[1] if bad else None, "true" if bad and bad[2] else "false"), sample={"configurations": n, "verdict": "same length and position-wise"})
 
 
 def redundant_rule(ctx, res):
